@@ -25,3 +25,16 @@ package api
 //@ nopanic C13
 //@ requires a != nil
 //@ ensures result == (a.done && chanlen(a.sq) == 0)
+
+// Assumed contracts of the api interface as used by the kernel (System.Tick, AddOnRequest).
+
+//@ func (API).DequeueSQE
+//@ iface
+//@ ensures len(result) <= arg0
+
+//@ func (API).Done
+//@ iface
+
+//@ func (API).EnqueueCQE
+//@ iface
+//@ records api_enqueue_cqe
